@@ -1,3 +1,4 @@
+import Gofasta.Lemmas.UpdownRecon
 import Gofasta.Lemmas.Enc
 import Gofasta.Lemmas.Reorder
 import Gofasta.Model.Updown
@@ -129,6 +130,15 @@ theorem row (id : String) (ref q : List Nat) (hl : ref.length = q.length) (hr : 
     getLine id (ref.map (enc false)) (q.map (enc false)) = specUdLine id ref q := by
   unfold getLine specUdLine
   simp only [snps_exact q ref 0 none hr hq, (ambs_runs q ref 0 hl hq).2, ambcount_exact q ref 0 none hl hq]
+
+/-- **C10.lossless** — the row the model writes lets the sequence be reconstructed up to the identity of its
+non-A/C/G/T symbols: with an A/C/G/T reference, rebuilding column by column from (reference, SNP list, ambiguity
+ranges) gives the sequence with every non-A/C/G/T symbol masked as '?' (letter case folded) -/
+theorem lossless (id : String) (ref q : List Nat) (hl : ref.length = q.length) (hr : Accepted ref) (hq : Accepted q)
+    (hacgt : ∀ r ∈ ref, Base.isACGT r = true) :
+    reconstruct ref (getLine id (ref.map (enc false)) (q.map (enc false))) = q.map mask := by
+  rw [row id ref q hl hr hq]
+  exact Gofasta.Lemmas.reconstruct_row id ref q hl hacgt
 
 /-- **C10.rows_in_input_order** — L-reorder instance for updown/list.writeOutput -/
 theorem rows_in_input_order (rows : Nat → String) (n : Nat) (arrival : List Nat)
